@@ -56,6 +56,8 @@ func main() {
 	flag.BoolVar(&cfg.NoSleepSets, "no-sleep-sets", false, "disable sleep-set partial-order reduction")
 	flag.BoolVar(&cfg.NoCache, "no-cache", false, "disable the model (counterexample) cache")
 	flag.StringVar(&params, "params", "", "harness parameters k=v,k=v (zzverif.Param)")
+	var audit string
+	flag.StringVar(&audit, "callsites", "", "write the structural encoder call sites of package zerolog to this file and exit")
 	flag.StringVar(&run, "run", ".*", "regexp selecting harness functions (VH_*)")
 	flag.StringVar(&out, "out", "", "write JSON report here")
 	flag.StringVar(&list, "list", "", "only list harnesses matching the regexp")
@@ -95,6 +97,13 @@ func main() {
 			fmt.Fprintln(os.Stderr, "gosym: load of generated harnesses failed:", err)
 			os.Exit(2)
 		}
+	}
+	if audit != "" {
+		if err := os.WriteFile(audit, []byte(strings.Join(eng.StructuralCallSites(), "\n")+"\n"), 0o644); err != nil {
+			fmt.Fprintln(os.Stderr, err)
+			os.Exit(2)
+		}
+		return
 	}
 	loadS := time.Since(t0).Seconds()
 	re := regexp.MustCompile(run)
